@@ -218,6 +218,7 @@ fn write_fd(uid: Uid, child: u8, ctx: Ctx) {
         }
         let _ = (d, in_dispatch, ctx);
         w.count("fd_write");
+        w.tr(|| format!("write fd of #{} child {}", uid, child));
     })
 }
 
@@ -242,6 +243,7 @@ fn drain_fd(uid: Uid, child: u8) {
             c.modified_at = d;
         }
         w.count("fd_drain");
+        w.tr(|| format!("drain fd of #{} child {}", uid, child));
     })
 }
 
@@ -277,11 +279,13 @@ fn fill_fd(uid: Uid, child: u8, unfill: bool) {
         }
         if was && !now {
             c.edge_pending = false;
-            if in_dispatch {
-                c.modified_at = d;
-            }
+        }
+        if in_dispatch && !unfill {
+            // readiness for one of the interests was taken away after the batch was collected
+            c.modified_at = d;
         }
         w.count(if unfill { "fd_unfill" } else { "fd_fill" });
+        w.tr(|| format!("{} fd of #{} child {}", if unfill { "unfill" } else { "fill" }, uid, child));
     })
 }
 
